@@ -141,7 +141,8 @@ def r2(ctx):
         n += 1
         R = Resolver(pb)
         v = R.rvalue(st['rv'], i, j)
-        stv = v[2][1]
+        from ..mir import agg_field
+        stv = agg_field(v, 'state', v[2][1] if len(v[2]) > 1 else None)
         site = '%s#build:AffContent' % pb.qname
         if stv == ('agg', ('adt', 'NodeState', 'Indeterminate', ()), ()):
             ctx.ok('C05.R2', site, 'new nodes start Indeterminate', st['span'])
